@@ -25,7 +25,7 @@ def run(ctx: Ctx) -> int:
     jobs.append(Job(STEP, "h_init", timeout=ctx.pick(120, 400)))
     jobs.append(Job(STEP, "h_lattice_live", timeout=ctx.pick(200, 900)))
     jobs.append(Job(STEP, "h_lattice_assign", timeout=ctx.pick(200, 900)))
-    k, r = ctx.pick((4, 3), (6, 4))
+    k, r = ctx.pick((4, 3), (5, 4))
     for p in range(6):
         for fn in ("h_schedule_bwd", "h_schedule_fwd"):
             jobs.append(Job(SCHED, fn, timeout=ctx.pick(150, 1500), name=f"{fn}[program={p},K={k},R={r}]",
